@@ -39,6 +39,16 @@ type SubJ struct {
 	Arc [][3]int `json:"arc"` // per point: r, large, sweep (r = 0: line)
 }
 
+// EllJ is a rotated ellipse of the raster scenes (draw.shape = 20 + index): centre, radii, rotation (cr, sr) / den.
+type EllJ struct {
+	C   [2]int `json:"c"`
+	A   int    `json:"a"`
+	B   int    `json:"b"`
+	Cr  int    `json:"cr"`
+	Sr  int    `json:"sr"`
+	Den int    `json:"den"`
+}
+
 func (s SubJ) arcAt(i int) (r int, large, sweep bool) {
 	if i < len(s.Arc) {
 		return s.Arc[i][0], s.Arc[i][1] != 0, s.Arc[i][2] != 0
@@ -47,6 +57,9 @@ func (s SubJ) arcAt(i int) (r int, large, sweep bool) {
 }
 
 func hasArc(h *Header, shape int) bool {
+	if shape > 20 {
+		return true
+	}
 	for _, sub := range h.Shapes[shape-1] {
 		for i := range sub.P {
 			if r, _, _ := sub.arcAt(i); r > 0 {
@@ -72,6 +85,7 @@ type Header struct {
 	Views     [][6]int          `json:"views"`
 	Paints    map[string]PaintJ `json:"paints"`
 	Grads     []string          `json:"grads"`
+	Ells      []EllJ            `json:"ells"`
 	Dashes    [][]float64       `json:"dashes"`
 	JoinLimit []int             `json:"joinlimit"`
 	ImgW      int               `json:"imgw"`
@@ -109,6 +123,18 @@ func mat6(a [6]int) canvas.Matrix {
 
 func shapePath(h *Header, s int) *canvas.Path {
 	p := &canvas.Path{}
+	if s > 20 { // rotated ellipse: two half-ellipse arcs with the x-axis rotation of the table, counter-clockwise
+		e := h.Ells[s-21]
+		cos, sin := float64(e.Cr)/float64(e.Den), float64(e.Sr)/float64(e.Den)
+		rot := math.Atan2(sin, cos) * 180 / math.Pi
+		x0, y0 := float64(e.C[0])+float64(e.A)*cos, float64(e.C[1])+float64(e.A)*sin
+		x1, y1 := float64(e.C[0])-float64(e.A)*cos, float64(e.C[1])-float64(e.A)*sin
+		p.MoveTo(x0, y0)
+		p.ArcTo(float64(e.A), float64(e.B), rot, false, true, x1, y1)
+		p.ArcTo(float64(e.A), float64(e.B), rot, false, true, x0, y0)
+		p.Close()
+		return p
+	}
 	for _, sub := range h.Shapes[s-1] {
 		for i, v := range sub.P {
 			if i == 0 {
